@@ -111,6 +111,7 @@ def create_marker_cache_from_specified_markers(
 
     # check that all non-trivial parent nodes will have more than
     # zero marker genes assigned to them
+    consulted_parents = None
     if taxonomy_tree is not None:
         marker_lookup = validate_marker_lookup(
             marker_lookup=marker_lookup,
@@ -118,6 +119,17 @@ def create_marker_cache_from_specified_markers(
             taxonomy_tree=taxonomy_tree,
             log=log,
             min_markers=min_markers)
+
+        # only parents with more than one child are ever consulted
+        # for markers; entries for any other key (parents with one
+        # child, nodes not in this taxonomy_tree, e.g. because a
+        # level was dropped) must not be able to fail the run
+        consulted_parents = set()
+        for parent in taxonomy_tree.all_parents:
+            if parent is None:
+                consulted_parents.add('None')
+            elif len(taxonomy_tree.children(parent[0], parent[1])) > 1:
+                consulted_parents.add(f'{parent[0]}/{parent[1]}')
 
     query_gene_set = set(query_gene_names)
     reference_gene_set = set(reference_gene_names)
@@ -132,7 +144,10 @@ def create_marker_cache_from_specified_markers(
         marker_set = set(marker_lookup[parent_node])
         these_markers = list(marker_set.intersection(query_gene_set))
 
-        if len(these_markers) == 0 and len(marker_set) > 0:
+        is_consulted = (consulted_parents is None
+                        or parent_node in consulted_parents)
+
+        if is_consulted and len(these_markers) == 0 and len(marker_set) > 0:
             these_markers = list(query_gene_set)
             msg = f"No markers at parent node '{parent_node}' were present "
             msg += "in query set."
